@@ -70,14 +70,18 @@ func main() {
 func configs(quick bool) []Config {
 	if quick {
 		return []Config{
-			{"fresh", "rsync", "none", "p1"},
-			{"overlay", "rsync", "gzip-6", "p1"},
-			{"fresh", "rsync", "gzip-6", "p1"},
-			{"overlay", "rsync", "none", "p1"},
-			{"overlay", "bsdiff", "gzip-6", "p2"},
-			{"fresh", "bsdiff", "none", "p2"},
-			{"overlay", "rsync", "brotli-1", "p4m"},
-			{"fresh", "bsdiff", "brotli-1", "p2"},
+			{"fresh", "rsync", "none", "p1", ""},
+			{"overlay", "rsync", "gzip-6", "p1", ""},
+			{"fresh", "rsync", "gzip-6", "p1", ""},
+			{"overlay", "rsync", "none", "p1", ""},
+			{"overlay", "bsdiff", "gzip-6", "p2", ""},
+			{"fresh", "bsdiff", "none", "p2", ""},
+			{"overlay", "rsync", "brotli-1", "p4m", ""},
+			{"fresh", "bsdiff", "brotli-1", "p2", ""},
+			// with a whitelist: skipped files in between must not disturb checkpoints
+			{"fresh", "rsync", "none", "p1", "even"},
+			{"fresh", "rsync", "gzip-6", "p1", "odd"},
+			{"overlay", "bsdiff", "none", "p2", "odd"},
 		}
 	}
 	var out []Config
@@ -86,7 +90,20 @@ func configs(quick bool) []Config {
 		for _, pd := range allPairs() {
 			for _, comp := range []wh.Comp{"none", "gzip-6", "brotli-1"} {
 				for _, b := range []string{"fresh", "overlay"} {
-					out = append(out, Config{b, series, comp, pd.Name})
+					out = append(out, Config{b, series, comp, pd.Name, ""})
+				}
+			}
+		}
+	}
+	for _, wl := range []string{"even", "odd"} {
+		for _, series := range []string{"rsync", "bsdiff"} {
+			for _, comp := range []wh.Comp{"none", "gzip-6", "brotli-1"} {
+				for _, b := range []string{"fresh", "overlay"} {
+					pair := "p1"
+					if series == "bsdiff" {
+						pair = "p2"
+					}
+					out = append(out, Config{b, series, comp, pair, wl})
 				}
 			}
 		}
